@@ -678,6 +678,24 @@ MUTANTS = [
         (PP_CPP, "        my_at_start(false)\n    {\n        my_pipeline.wait_ctx.reserve();\n    }", "        my_at_start(false)\n    {\n    }")]),
     dict(name='c07-execute-no-finalize', prop='C07', clause='D4', edits=[
         (PP_CPP, "        if(!execute_filter(ed)) {\n            finalize(ed);\n            return nullptr;\n        }", "        if(!execute_filter(ed)) {\n            return nullptr;\n        }")]),
+    dict(name='c07-seed3-token-taken-before-the-ordered-stamp', prop='C07', clause='D3', edits=[(PP_CPP, """                if( my_filter->is_ordered() ) {
+                    my_token = my_filter->my_input_buffer->get_ordered_token();
+                    my_token_ready = true;
+                }
+                if( !my_filter->next_filter_in_pipeline ) { // we're only filter in pipeline
+                    reset();
+                    return true;
+                } else {
+                    try_spawn_stage_task(ed);
+                }""", """                if( !my_filter->next_filter_in_pipeline ) { // we're only filter in pipeline
+                    reset();
+                    return true;
+                }
+                try_spawn_stage_task(ed);
+                if( my_filter->is_ordered() ) {
+                    my_token = my_filter->my_input_buffer->get_ordered_token();
+                    my_token_ready = true;
+                }""")]),
     # ---------------------------------------------------------------- C08
     dict(name='c08-trylock-writer-mask', prop='C08', clause='D2', edits=[
         (SRW_H, "        state_type s = m_state.load(std::memory_order_relaxed);\n        if (!(s & BUSY)) { // no readers, no writers; mask is 1..1101\n            if (m_state.compare_exchange_strong(s, WRITER)) {",
@@ -1225,6 +1243,25 @@ BENIGN = [
         } else {""")]),
     dict(name='c12-b-doubling-by-shift', prop='C12', edits=[('include/oneapi/tbb/detail/_concurrent_unordered_base.h',
         "            my_bucket_count.compare_exchange_strong(current_size, 2u * current_size);", "            my_bucket_count.compare_exchange_strong(current_size, current_size << 1);")]),
+    dict(name='c07-b-token-helpers-extracted', prop='C07', edits=[(PP_CPP, """    void try_spawn_stage_task(d1::execution_data& ed) {
+        ITT_NOTIFY( sync_releasing, &my_pipeline.input_tokens );
+        if( (my_pipeline.input_tokens.fetch_sub(1, std::memory_order_release)) > 1 ) {
+            d1::small_object_allocator alloc{};
+            r1::spawn( *alloc.new_object<stage_task>(ed, my_pipeline, alloc ), my_pipeline.my_context );
+        }
+    }""", """    bool take_input_token() {
+        ITT_NOTIFY( sync_releasing, &my_pipeline.input_tokens );
+        return my_pipeline.input_tokens.fetch_sub(1, std::memory_order_release) > 1;
+    }
+    void spawn_input_stage_task(d1::execution_data& ed) {
+        d1::small_object_allocator alloc{};
+        r1::spawn( *alloc.new_object<stage_task>(ed, my_pipeline, alloc ), my_pipeline.my_context );
+    }
+    void try_spawn_stage_task(d1::execution_data& ed) {
+        const bool tokens_left = take_input_token();
+        if( tokens_left )
+            spawn_input_stage_task(ed);
+    }""")]),
     dict(name='c05-b-ratio-operands-commuted', prop='C05', edits=[('include/oneapi/tbb/blocked_range2d.h',
         "        if ( my_rows.size()*double(my_cols.grainsize()) < my_cols.size()*double(my_rows.grainsize()) ) {",
         "        if ( double(my_cols.grainsize())*my_rows.size() < double(my_rows.grainsize())*my_cols.size() ) {")]),
